@@ -1803,6 +1803,8 @@ fn snap_term(s: &SnapMirror) -> String {
 enum CopyObs {
     Err(String),
     Panic(String),
+    /// the process died (allocation failure = abort); only observable from outside the process
+    Abort(String),
     Ok(Dump, Dump, u64, u64),
 }
 fn observe_copy(db: &GrafeoDB) -> CopyObs {
@@ -1816,6 +1818,7 @@ fn copy_term(o: &CopyObs) -> String {
     match o {
         CopyObs::Err(_) => "CErr".into(),
         CopyObs::Panic(_) => "CPanic".into(),
+        CopyObs::Abort(_) => "CAbort".into(),
         CopyObs::Ok(c, l, nn, ne) => format!("(COk {} {} {} {})", dump_term(c), dump_term(l), nn, ne),
     }
 }
@@ -1823,6 +1826,7 @@ fn copy_short(o: &CopyObs) -> String {
     match o {
         CopyObs::Err(e) => format!("Err({})", e),
         CopyObs::Panic(m) => format!("PANIC({})", m),
+        CopyObs::Abort(m) => format!("PROCESS ABORTED({})", m),
         CopyObs::Ok(_, l, nn, ne) => format!("{} next=({},{})", dump_short(l), nn, ne),
     }
 }
@@ -1960,64 +1964,147 @@ fn case_snap(sc: &mut Scratch, ops: &[Op], mut tags: Vec<String>) -> (Case, Vec<
     }
     (c, b1)
 }
-fn case_import(bytes: &[u8], what: &str, tags: Vec<String>, valid_len: usize) -> Case {
-    let obs = import_obs(bytes);
-    let dec = snap_decode(bytes);
+/// What one `import_snapshot` call does, observed from outside: the call runs in a child process
+/// (`c05 --import-child`, bytes on stdin) because a byte string with a huge length prefix makes
+/// the decoder allocate until the process is aborted, which no `catch_unwind` can see.
+struct ImportObs {
+    /// Coq term of the observation (cobs)
+    term: String,
+    short: String,
+    /// Coq term of what the real decoder made of the bytes: option (snapshot * nat)
+    dt: String,
+    kind: char, // 'O'k 'E'rr 'P'anic 'A'bort
+    decoded: bool,
+    version: u64,
+    consumed: usize,
+    max_id: bool,
+    /// (nodes, edges) in the imported database; distinct ids named by the snapshot
+    built: (usize, usize),
+    named: (usize, usize),
+}
+fn import_child_main() {
+    use std::io::Read as _;
+    let mut bytes = vec![];
+    std::io::stdin().read_to_end(&mut bytes).expect("stdin");
+    quiet_panics();
+    // the decoder first (it is what import_snapshot calls first): if it takes the process down, nothing is printed
+    let dec = snap_decode(&bytes);
+    let obs = import_obs(&bytes);
     let dt = match &dec {
         Some((s, n)) => format!("(Some ({}, ({})%nat))", snap_term(s), n),
         None => "None".into(),
     };
-    let mut c = Case {
-        kind: "snap_bytes".into(),
-        input: format!("{} ({} bytes)", what, bytes.len()),
-        coq: Some(format!("chk_import_bytes {} {} {}", bts(bytes), dt, copy_term(&obs))),
-        imp: copy_short(&obs),
-        nontrivial: true,
-        tags,
-        ..Default::default()
+    let (kind, built) = match &obs {
+        CopyObs::Ok(_, l, _, _) => ('O', (l.nodes.len(), l.edges.len())),
+        CopyObs::Err(_) => ('E', (0, 0)),
+        CopyObs::Panic(_) => ('P', (0, 0)),
+        CopyObs::Abort(_) => ('A', (0, 0)),
     };
-    match (&obs, &dec) {
-        (CopyObs::Panic(m), d) => {
-            c.oracle = Oracle::Fail;
-            c.msg = format!("import_snapshot panics: {}", m);
-            if let Some((sn, _)) = d {
-                if sn.nodes.iter().any(|n| n.id.as_u64() == u64::MAX) || sn.edges.iter().any(|e| e.id.as_u64() == u64::MAX) {
-                    c.kid = Some("C07-K3".into());
-                    c.kcoq = Some(format!("kc07_3 {}", bts(bytes)));
-                    let _ = sn;
-                }
-            }
-        }
-        (CopyObs::Ok(..), Some((_, n))) if *n < bytes.len() => {
-            c.oracle = Oracle::Fail;
-            c.msg = format!("import accepts {} bytes of which only {} are a snapshot", bytes.len(), n);
-            c.kid = Some("C07-K2".into());
-            c.kcoq = Some(format!("kc07_2 {}", bts(bytes)));
-        }
-        (CopyObs::Ok(..), None) => {
-            c.oracle = Oracle::Fail;
-            c.msg = "import accepts bytes that do not decode as a snapshot".into();
-        }
-        (CopyObs::Ok(..), Some((sn, _))) if sn.version != 1 => {
-            c.oracle = Oracle::Fail;
-            c.msg = format!("import accepts a snapshot of version {}", sn.version);
-        }
-        (CopyObs::Ok(_, lat, _, _), Some((sn, _))) if lat.nodes.len() != sn.nodes.len() || lat.edges.len() != sn.edges.len() => {
-            // (distinct ids in every generated snapshot) a partially filled database
+    let (decoded, version, consumed, max_id, named) = match &dec {
+        Some((sn, n)) => {
             let mut ids: Vec<u64> = sn.nodes.iter().map(|n| n.id.as_u64()).collect();
             ids.sort();
             ids.dedup();
             let mut eids: Vec<u64> = sn.edges.iter().map(|e| e.id.as_u64()).collect();
             eids.sort();
             eids.dedup();
-            if ids.len() != lat.nodes.len() || eids.len() != lat.edges.len() {
-                c.oracle = Oracle::Fail;
-                c.msg = format!("import built {} nodes / {} edges from a snapshot naming {} / {}", lat.nodes.len(), lat.edges.len(), ids.len(), eids.len());
-            } else {
-                c.oracle = Oracle::Ok;
-            }
+            let mx = sn.nodes.iter().any(|n| n.id.as_u64() == u64::MAX) || sn.edges.iter().any(|e| e.id.as_u64() == u64::MAX);
+            (true, sn.version as u64, *n, mx, (ids.len(), eids.len()))
         }
-        _ => c.oracle = Oracle::Ok,
+        None => (false, 0, 0, false, (0, 0)),
+    };
+    println!("{}", copy_term(&obs));
+    println!("{}", copy_short(&obs).replace('\n', " "));
+    println!("{}", dt);
+    println!("{} {} {} {} {} {} {} {} {}", kind, decoded, version, consumed, max_id, built.0, built.1, named.0, named.1);
+}
+fn import_outside(bytes: &[u8]) -> ImportObs {
+    use std::io::Write as _;
+    use std::process::{Command, Stdio};
+    let exe = std::env::current_exe().expect("current_exe");
+    let mut ch = Command::new(exe).arg("--import-child").stdin(Stdio::piped()).stdout(Stdio::piped()).stderr(Stdio::piped()).spawn().expect("spawn import child");
+    {
+        let mut si = ch.stdin.take().expect("child stdin");
+        let _ = si.write_all(bytes);
+    }
+    let out = ch.wait_with_output().expect("child output");
+    let so = String::from_utf8_lossy(&out.stdout).to_string();
+    let lines: Vec<&str> = so.lines().collect();
+    if !out.status.success() || lines.len() < 4 {
+        let se = String::from_utf8_lossy(&out.stderr);
+        let first = se.lines().next().unwrap_or("").to_string();
+        let o = CopyObs::Abort(format!("{:?}: {}", out.status, first));
+        return ImportObs { term: copy_term(&o), short: copy_short(&o), dt: "None".into(), kind: 'A', decoded: false, version: 0, consumed: 0, max_id: false, built: (0, 0), named: (0, 0) };
+    }
+    let f: Vec<&str> = lines[3].split(' ').collect();
+    ImportObs {
+        term: lines[0].to_string(),
+        short: lines[1].to_string(),
+        dt: lines[2].to_string(),
+        kind: f[0].chars().next().unwrap_or('A'),
+        decoded: f[1] == "true",
+        version: f[2].parse().unwrap_or(0),
+        consumed: f[3].parse().unwrap_or(0),
+        max_id: f[4] == "true",
+        built: (f[5].parse().unwrap_or(0), f[6].parse().unwrap_or(0)),
+        named: (f[7].parse().unwrap_or(0), f[8].parse().unwrap_or(0)),
+    }
+}
+fn case_import(bytes: &[u8], what: &str, tags: Vec<String>, valid_len: usize) -> Case {
+    let o = import_outside(bytes);
+    let mut c = Case {
+        kind: "snap_bytes".into(),
+        input: format!("{} ({} bytes) = {:02x?}", what, bytes.len(), &bytes[..bytes.len().min(48)]),
+        coq: Some(format!("chk_import_bytes {} {} {}", bts(bytes), o.dt, o.term)),
+        imp: o.short.clone(),
+        nontrivial: true,
+        tags,
+        ..Default::default()
+    };
+    match o.kind {
+        'A' => {
+            c.oracle = Oracle::Fail;
+            c.msg = format!("import_snapshot takes the whole process down: {}", o.short);
+            c.kid = Some("C07-K4".into());
+            c.kcoq = Some(format!("kc07_4 {}", bts(bytes)));
+            c.tags.push("outcome:abort".into());
+        }
+        'P' => {
+            c.oracle = Oracle::Fail;
+            c.msg = format!("import_snapshot panics: {}", o.short);
+            if o.decoded && o.max_id {
+                c.kid = Some("C07-K3".into());
+                c.kcoq = Some(format!("kc07_3 {}", bts(bytes)));
+            }
+            c.tags.push("outcome:panic".into());
+        }
+        'O' if o.decoded && o.consumed < bytes.len() => {
+            c.oracle = Oracle::Fail;
+            c.msg = format!("import accepts {} bytes of which only {} are a snapshot", bytes.len(), o.consumed);
+            c.kid = Some("C07-K2".into());
+            c.kcoq = Some(format!("kc07_2 {}", bts(bytes)));
+            c.tags.push("outcome:ok".into());
+        }
+        'O' if !o.decoded => {
+            c.oracle = Oracle::Fail;
+            c.msg = "import accepts bytes that do not decode as a snapshot".into();
+        }
+        'O' if o.version != 1 => {
+            c.oracle = Oracle::Fail;
+            c.msg = format!("import accepts a snapshot of version {}", o.version);
+        }
+        'O' if o.built != o.named => {
+            c.oracle = Oracle::Fail;
+            c.msg = format!("import built {} nodes / {} edges from a snapshot naming {} / {}", o.built.0, o.built.1, o.named.0, o.named.1);
+        }
+        'O' => {
+            c.oracle = Oracle::Ok;
+            c.tags.push("outcome:ok".into());
+        }
+        _ => {
+            c.oracle = Oracle::Ok;
+            c.tags.push("outcome:error".into());
+        }
     }
     let _ = valid_len;
     c
@@ -2163,11 +2250,23 @@ fn corpus_c07(sc: &mut Scratch, out: &mut Out, r: &mut Rng) {
         let bytes = bincode::serde::encode_to_vec(&sm, bincode::config::standard()).unwrap();
         out.emit(&case_import(&bytes, "snapshot with node id u64::MAX-1", t("id:max-1"), bytes.len()));
     }
+    // K4: a 13-byte string whose first label announces 2^63-1 bytes
+    {
+        let bytes: Vec<u8> = vec![1, 1, 0, 1, 253, 0xff, 0xff, 0xff, 0xff, 0xff, 0xff, 0xff, 0x7f];
+        out.emit(&case_import(&bytes, "label length prefix 2^63-1", t("witness:K4"), 0));
+        // and one that merely announces more than there is (4 GiB): an error, not an abort
+        let bytes: Vec<u8> = vec![1, 1, 0, 1, 252, 0xff, 0xff, 0xff, 0xff];
+        out.emit(&case_import(&bytes, "label length prefix 2^32-1", t("length:4GiB"), 0));
+    }
     // K1: a node created after the first commit
     let (c, _) = case_snap(sc, &[Op::CreateNode(l(&["A"])), Op::SessTxNode(l(&["B"])), Op::SessNode(l(&["Person"]), vec![], false)], t("witness:K1"));
     out.emit(&c);
 }
 fn main() {
+    if std::env::args().any(|x| x == "--import-child") {
+        import_child_main();
+        return;
+    }
     let a = parse_args();
     quiet_panics();
     let mut prop = "C05".to_string();
